@@ -47,16 +47,17 @@ def decode_wire(run, idx, data: bytes):
         out["request_id"] = out["pdu"]["request_id"]
         return out
     # encrypted: decrypt with the reference keys of the named user
-    user = run.agent.users.get(u["user"])
+    agent = run.agent_of(idx)
+    user = agent.users.get(u["user"])
     if user is None or not user.get("priv_alg"):
         out["error"] = "encrypted message for a user without privacy key"
         return out
     try:
         kul = user["priv_kul"]
-        if u["engine_id"] != run.agent.engine_id:
+        if u["engine_id"] != agent.engine_id:
             # keys localized to whatever engine id the message names
             spec = user["spec"]
-            kul = run.agent.derive(spec["auth"]["alg"], spec["priv"]["type"], bytes.fromhex(spec["priv"]["key"]), u["engine_id"])
+            kul = agent.derive(spec["auth"]["alg"], spec["priv"]["type"], bytes.fromhex(spec["priv"]["key"]), u["engine_id"])
         plain = usm.priv_decrypt(user["priv_alg"], kul, u["boots"], u["time"], u["priv"], m["encrypted"])
         out["plain"] = plain
         sc = snmp.dec_scoped(plain, 0, len(plain), request=True, allow_padding=True)
